@@ -611,6 +611,15 @@ def gen_L3(quick):
                 nd = (kind, s)
                 yield ('L3-depth%d' % depth, True), ('L3', nd)
                 nxt.append(nd)
+        if depth == 2:
+            # an anonymous member that does not start at offset 0, followed by further members (named, or members of a second anonymous
+            # member): looking such a member up walks past the first anonymous member (seeded round 9: its offset stayed in the accumulator)
+            anon = [w for w in wraps if w[0] == 'a']
+            for kind in ('struct', 'union'):
+                for first in scal[:2] + anon[:2]:
+                    for mid in anon:
+                        for last in scal[:3] + anon[::3] + [w for w in wraps if w[0] == 'n'][::4]:
+                            yield ('L3-after-anonymous', True), ('L3', (kind, (first, mid, last)))
         # next level is built from the 12 most distinct layouts of this level
         seen, lv = set(), []
         for nd in nxt:
